@@ -163,6 +163,18 @@ def eval_case(case, drv):
             detail["pad"] = {"impl": short(impl), "model": short(model), "spec": short(spec)}
         corr_ok &= ok_m
         prop_ok &= ok_s
+        # the same padding again on the SAME grid without any per-call choice: the Grid-level settings apply, whatever
+        # earlier calls asked for
+        try:
+            res0 = pad(da, grid, boundary_width=dict(bw))
+            impl0 = ("ok", canon_da(res0))
+        except Exception as e:  # noqa: BLE001
+            impl0 = ("err", exc_kind(e))
+        preq0 = f"{enc_grid(gaxes)} {enc_arr(case['dims'], da.values)} {wenc} N N"
+        spec0 = denan(parse_res(drv.ask("c02padspec " + preq0)))
+        if not agree(impl0, spec0 if spec0[0] == "ok" else ("err", None)):
+            prop_ok = False
+            detail["pad_after_a_call_with_overrides"] = {"impl": short(impl0), "spec": short(spec0)}
         if case.get("nan_data"):
             # the operator arithmetic on missing values is outside the rational model: pad only
             return {"corr_ok": bool(corr_ok), "prop_ok": bool(prop_ok), "branch": "ctor+pad:missing-values",
